@@ -42,7 +42,11 @@ pub fn entropy<T: RealNumber>(data: &[T]) -> Option<T> {
         }
     }
 
-    Some(entropy)
+    if entropy == T::zero() {
+        None
+    } else {
+        Some(entropy)
+    }
 }
 
 pub fn mutual_info_score<T: RealNumber>(contingency: &[Vec<usize>]) -> T {
